@@ -53,6 +53,31 @@ def pred_expect_reject(ops, impl):
     return bad
 
 
+def pred_roundtrip(ops, impl):
+    """C17: formatting an accepted URI and parsing the result must give the same URI"""
+    bad = []
+    for i, (o, r) in enumerate(zip(ops, impl)):
+        if o.startswith("URI roundtrip") and r.startswith("ok same=false"):
+            raw = bytes.fromhex(o.split()[2]) if o.split()[2] != "-" else b""
+            bad.append((i, "roundtrip differs for " + repr(raw.decode("latin1")) + " -> " + r))
+    return bad
+
+
+def pred_uri_wellformed(ops, impl):
+    """C17: every accepted URI has a non-empty host and a port in 0..65535"""
+    bad = []
+    for i, (o, r) in enumerate(zip(ops, impl)):
+        if o.startswith("URI parse") and r.startswith("ok "):
+            f = dict(x.split("=", 1) for x in r.split(" || ")[0].split()[1:])
+            if f["host"] == "-" or not (0 <= int(f["port"]) <= 65535) or f["scheme"] not in ("stun", "stuns", "turn", "turns"):
+                bad.append((i, "accepted URI is not well-formed: " + r))
+    return bad
+
+
+def pred_uri(ops, impl):
+    return pred_roundtrip(ops, impl) + pred_uri_wellformed(ops, impl)
+
+
 STREAMS = {
     "msgtype": {"n": {"quick": 1, "thorough": 1}, "nontrivial": None},
     "decode": {"n": {"quick": 4000, "thorough": 150000}, "nontrivial": nt_decode},
@@ -62,6 +87,11 @@ STREAMS = {
     "attrs-valid": {"n": {"quick": 1500, "thorough": 60000}, "nontrivial": nt_any},
     "attrs-malformed": {"n": {"quick": 1, "thorough": 30}, "nontrivial": nt_any},
     "hmac-hist": {"n": {"quick": 400, "thorough": 20000}, "nontrivial": nt_any},
+    "uri-exh": {"n": {"quick": 3, "thorough": 5}, "nontrivial": nt_any, "predicate": pred_uri, "predicate_props": ["C17"]},
+    "uri-grammar": {"n": {"quick": 6000, "thorough": 400000}, "nontrivial": nt_any, "predicate": pred_uri,
+                    "predicate_props": ["C17"]},
+    "uri-std": {"n": {"quick": 3000, "thorough": 200000}, "nontrivial": nt_any},
+    "uri-dial": {"n": {"quick": 1, "thorough": 1}, "nontrivial": None},
     "integrity": {"n": {"quick": 150, "thorough": 6000}, "nontrivial": nt_any, "predicate": pred_expect_reject},
     "fingerprint": {"n": {"quick": 100, "thorough": 5000}, "nontrivial": nt_any, "predicate": pred_expect_reject},
 }
@@ -245,5 +275,34 @@ PROPS = {
                 "(also under -race)",
         "assumptions": ["sync.Pool hands one object to one taker at a time", "hash MarshalBinary/UnmarshalBinary "
                         "round-trips the absorbed state"],
+    },
+    "C16": {
+        "modules": ["Stun.Properties.C16"],
+        "theorems": ["Stun.C16.parseURI_total", "Stun.C16.no_second_retry", "Stun.C16.retry_once",
+                     "Stun.C16.missing_port_forever", "Stun.C16.lastIndex_spec"],
+        "streams": ["uri-exh", "uri-grammar", "uri-std"],
+        "level": "proof",
+        "rule": "all strings over a 20-symbol alphabet of URI-significant characters up to the length bound after each "
+                "scheme prefix (exhaustive), random / grammar-mutated strings incl. non-ASCII, control characters and "
+                "5000-byte inputs; the library runs in a worker process with a 64 MiB stack limit - a crash of the "
+                "worker is the failing input; SplitHostPort / url.Parse / ParseQuery / Atoi compared function by function",
+        "assumptions": ["Go stack depth as such is runtime; the model's recursion depth <= 1 is the logical content"],
+    },
+    "C17": {
+        "modules": ["Stun.Properties.C17"],
+        "theorems": ["Stun.C17.accepted_wellformed", "Stun.C17.accepted_wellformed_aux", "Stun.C17.parseProto_spec",
+                     "Stun.C17.dial_plan_table", "Stun.C17.secure_never_plain", "Stun.C17.roundtrip_fails_on_slash_host"],
+        "streams": ["uri-grammar", "uri-exh", "uri-dial"],
+        "level": "proof",
+        "rule": "grammar-generated URIs (4 schemes x reg-name / IPv4 / bracketed IPv6 / zone hosts x absent / boundary / "
+                "out-of-range / signed ports x absent / valid / invalid / repeated / extra / escaped query keys) and "
+                "mutations, plus the exhaustive alphabet strings; predicates on the implementation: accepted URIs are "
+                "well-formed and round-trip through String(); DialURI with an injected recording network for all 5x3 "
+                "scheme/transport values x IPv4 / IPv6 / name hosts (first bytes written: STUN header vs TLS/DTLS "
+                "ClientHello)",
+        "explanation": "string round trip: the full statement is not proved; it is false for bracketed hosts without ':' "
+                       "that begin with '/' (known finding F8, refuted on a concrete URI in Lean and reported as "
+                       "KNOWN-FINDING by the predicate); for all other inputs it is decided by the correspondence and "
+                       "the predicate only",
     },
 }
